@@ -58,6 +58,12 @@ impl<'a> BmZip<'a> {
         }
     { unimplemented!() }
 }
+// bytes: BytesMut derefs to the slice of its contents
+impl core::ops::Deref for BytesMut {
+    type Target = [u8];
+    #[verifier::external_body]
+    fn deref(&self) -> (r: &[u8]) ensures r@ == self.data@ { unimplemented!() }
+}
 impl vstd::std_specs::core::IndexSpecImpl<core::ops::RangeTo<usize>> for BytesMut {
     // slice indexing panics when the range end is beyond the length
     open spec fn index_req(&self, r: &core::ops::RangeTo<usize>) -> bool { r.end <= self.data@.len() }
